@@ -549,7 +549,8 @@ def _guard_bodies(ck, F, used):
             n += 1
             try:
                 nb = local_fn(p)
-                tried, cex, classes = IG.decide(nb, local_fn)
+                bound = IG.BOUND + (1 if ck.tier == "thorough" else 0)
+                tried, cex, classes = IG.decide(nb, local_fn, bound)
             except IG.Unsupported as u:
                 ck.undecided("R4", f"guard:{name}", u.sp or site, f"{p}: {u.what}: the guard is outside the operation set whose post-condition can be decided")
                 continue
@@ -557,7 +558,7 @@ def _guard_bodies(ck, F, used):
                 ck.undecided("R4", f"guard:{name}", site, f"{p}: {u.what}")
                 continue
             if not cex:
-                ck.ok("R4", f"guard:{name}", site, f"{p}: {tried} input strings (length <= {IG.BOUND} over {classes} character classes) all map to legal identifiers", fn=name)
+                ck.ok("R4", f"guard:{name}", site, f"{p}: {tried} input strings (length <= {bound} over {classes} character classes) all map to legal identifiers", fn=name)
             for kind, (inp, out, why) in sorted(cex.items()):
                 ck.violation("R4", f"guard:{name}:{kind}", site,
                              f"{p}: for the name {inp!r} the guard returns {out!r}: {why}; the generated item does not parse", fn=name)
